@@ -733,8 +733,11 @@ def prep_reject(ctx: Ctx, case):
                         continue
                     R = R / d_ ** (1 / 3)
                 dev = float(np.abs(R @ R.T - np.eye(3)).max())
-                marg = min(abs(R[2, 2] - case["atol"]), abs(R[0, 0] - R[1, 1]) if R[2, 2] < case["atol"] else abs(R[0, 0] + R[1, 1]))
-                okm.append(dev <= 1e-2 and marg > 1e4 * common.EPS[dtype] + 4 * dev)
+                # the VALUE of the R22 threshold is free (any candidate with t_i ≳ 1 is legitimate, `mat2SO3_any_branch`): values are
+                # compared only when |R22| ≥ 0.1, where every reasonable threshold selects the same pair of candidates, and the
+                # comparison that picks within the pair has a margin well above rounding and above the deviation
+                marg = abs(R[0, 0] - R[1, 1]) if R[2, 2] < 0 else abs(R[0, 0] + R[1, 1])
+                okm.append(dev <= 1e-2 and abs(R[2, 2]) >= 0.1 and marg > 1e4 * common.EPS[dtype] + 4 * dev)
             return okm
         if got == "ok" and st0 == "ok" and not illdet and all(robust_items()):
             want = torch.tensor([float(common.from_wire(t)) for t in toks0], dtype=torch.float64).reshape(n, U.GDIM[name])
@@ -2428,9 +2431,9 @@ def run(ctx: Ctx):
     run_large(ctx)
     run_dispatch(ctx)
     run_kernel(ctx, ctx.pick(150, 1500))
-    run_roundtrip(ctx, ctx.pick(450, 9000))
-    run_reject(ctx, ctx.pick(400, 6000))
-    run_euler(ctx, ctx.pick(400, 7000))
+    run_roundtrip(ctx, ctx.pick(350, 9000))
+    run_reject(ctx, ctx.pick(320, 6000))
+    run_euler(ctx, ctx.pick(300, 7000))
     run_warn(ctx, ctx.pick(80, 800))
 
 
